@@ -23,6 +23,8 @@ import (
 
 var enc = json.NewEncoder(os.Stdout)
 
+var ctxBG = context.Background()
+
 func hx(b []byte) string { return hex.EncodeToString(b) }
 
 // pair returns a loopback TCP pair: the peer's end and a uacp.Conn (no HEL/ACK exchange) with the given limits.
@@ -188,6 +190,8 @@ func main() {
 		c10(*seed, *n, *replay)
 	case "c13":
 		c13(*seed, *n, *replay)
+	case "c20":
+		c20(*seed, *n, *replay)
 	default:
 		fmt.Fprintln(os.Stderr, "usage: recvharness [-seed N] [-n N] [-replay file] c12|c09|c10|c13|c17|c20")
 		os.Exit(2)
